@@ -1,19 +1,67 @@
-(* Properties_C19.v -- C19: list output renders every member's header fields in the
-   Unix-LHA layout.  ListOut.v is the executable statement of that layout; the
-   theorems about it (row decomposition, footer counts and sums, glob
-   correctness, numeric formatting) are added from P_ListOut.v as they are
-   completed. *)
-From Lhasa Require Import Base Header Printf Glob ListOut.
+(* Properties_C19.v -- C19: list output renders every member's header fields in
+   the Unix-LHA layout.  ListOut.v is the executable statement of the layout (its
+   extracted form is the reference rendering the check compares the real tool
+   with, byte for byte); the theorems below, proved in P_ListOut.v, state its
+   structure: which members get a row, that a row depends on its member alone,
+   what the footer shows, wildcard semantics, and the exact decimal rounding of
+   the ratio column. *)
+From Coq Require Import Strings.String.
+From Lhasa Require Import Base Header Printf Glob ListOut P_ListOut.
+Import List ListNotations.
 Local Open Scope N_scope.
 
-(* the ratio column: single-precision (compressed * 100) / original, one decimal *)
+(* '*' matches any run of bytes, '?' exactly one, anything else itself *)
+Theorem glob_correct : forall p s, match_glob p s = true <-> matches p s.
+Proof. exact P_ListOut.glob_correct. Qed.
+
+(* a member is selected iff there are no patterns or one of them matches path ++ name *)
+Theorem selection_spec : forall pats h, selectedb pats h = true <-> selected_spec pats h.
+Proof. exact P_ListOut.selectedb_spec. Qed.
+
+(* headings (unless quiet >= 2), then one row per selected member in archive order,
+   each row a function of that member alone, then separator and footer *)
+Theorem list_output_rows : forall lt mode o pats now mtime hs,
+  lt_ok lt -> is_list_mode mode ->
+  let cols := columns_of mode (o_verbose o) in
+  let sel := selected pats hs in
+  list_output lt (mode, o) pats now mtime hs =
+  Ok (heading_lines (o_quiet o) cols
+      ++ concat (map (row_of lt now cols) sel)
+      ++ footer_lines lt now (o_quiet o) cols (stats_of mtime sel)).
+Proof. exact P_ListOut.list_output_rows. Qed.
+
+(* the footer: number of rows, true sums of the sizes (no wrap below 2^64), ratio of the sums *)
+Theorem footer_counts_and_sums : forall lt now mtime pats hs,
+  let sel := selected pats hs in
+  let st := stats_of mtime sel in
+  nlen sel < 2 ^ 31 ->
+  sum_N (map h_compressed_length sel) < 2 ^ 64 ->
+  sum_N (map h_length sel) < 2 ^ 64 ->
+  footer_cell lt now 1 st =
+    fmt_d false false 5 (Z.of_N (nlen sel)) ++ (if nlen sel =? 1 then str " file "%string else str " files"%string) /\
+  footer_cell lt now 2 st = fmt_u false false 7 (sum_N (map h_compressed_length sel)) /\
+  footer_cell lt now 3 st = fmt_u false false 7 (sum_N (map h_length sel)) /\
+  footer_cell lt now 4 st =
+    (if sum_N (map h_length sel) =? 0 then stars6
+     else ratio_string (sum_N (map h_compressed_length sel)) (sum_N (map h_length sel))).
+Proof. exact P_ListOut.footer_counts_sums_no_overflow. Qed.
+
+(* the one-decimal rounding of the ratio: nearest, ties to even, on the exact value *)
+Theorem ratio_rounding_correct : forall m e, match e with
+  | Zneg p => nearest_even (Npos m * 10) (2 ^ Npos p) (tenths m e)
+  | _ => tenths m e = Npos m * 10 * 2 ^ Z.to_N e end.
+Proof. exact P_ListOut.tenths_correct. Qed.
+
+Theorem ratio_of_empty_size : forall c, ratio_string c 0 = [49; 48; 48; 46; 48; 37].   (* "100.0%" *)
+Proof. exact P_ListOut.ratio_string_zero_size. Qed.
+
 Example ratio_examples :
-  ratio_string 123456789 987654321 = [32; 49; 50; 46; 53; 37] /\       (* " 12.5%" *)
-  ratio_string 5 0 = [49; 48; 48; 46; 48; 37].                          (* "100.0%" *)
+  ratio_string 123456789 987654321 = [32; 49; 50; 46; 53; 37] /\ ratio_string 1 16 = [32; 32; 54; 46; 50; 37].
 Proof. split; vm_compute; reflexivity. Qed.
 
-(* '*' any run, '?' one byte, everything else literal *)
-Example glob_examples :
-  match_glob [42; 46; 99] [97; 47; 98; 46; 99] = true /\ match_glob [97; 63; 99] [97; 98; 99] = true /\
-  match_glob [97; 63; 99] [97; 99] = false.
-Proof. repeat split; vm_compute; reflexivity. Qed.
+Print Assumptions glob_correct.
+Print Assumptions selection_spec.
+Print Assumptions list_output_rows.
+Print Assumptions footer_counts_and_sums.
+Print Assumptions ratio_rounding_correct.
+Print Assumptions ratio_of_empty_size.
